@@ -17,7 +17,9 @@ open Masscanned.Spec (u8 le16 le32 sub)
     length) in a NetBIOS session message is answered, for every clock value, with a reply satisfying
     `Spec.smb1ReplyOk`: NetBIOS length = bytes that follow, `\xffSMB`, command echoed, reply flag set,
     PIDHigh/TID/PIDLow/UID/MID echoed, ByteCount = bytes that follow, DialectIndex < number of offered
-    dialects (negotiate), 1 ≤ SecurityBlobLength ≤ ByteCount (session setup). -/
+    dialects and — whenever the client offered one of `NT LM 0.12`, `SMB 2.???`, `SMB 2.002` — designating
+    such a dialect in the list as sent on the wire, duplicates included (negotiate),
+    1 ≤ SecurityBlobLength ≤ ByteCount (session setup). -/
 theorem smb1_reply (env : Env) (p m : Bytes) (req : Spec.Smb1Req)
     (hn : Spec.nbtBody p = some m) (hr : Spec.smb1Request m = some req) :
     ∃ r, smb1Repl env p = some r ∧ Spec.smb1ReplyOk m req r = true := by
@@ -29,7 +31,9 @@ theorem smb1_reply (env : Env) (p m : Bytes) (req : Spec.Smb1Req)
     have hlen : m.length ≥ 35 := by simp at h3; omega
     rw [smb1Message_some (by omega) hfl (by rw [at8_eq_u8, hc]; exact hp)]
     exact ⟨_, rfl, smb1ReplyOk_frame m _ _ h32 (by rw [negBody_length]; omega) (by rw [negBody_length]; omega)
-      (negBody_ok env ds (smb1DialectIndex_lt ds hne))⟩
+      (negBody_ok env ds (smb1DialectIndex_lt ds hne)
+        (by have := smb1DialectList_length _ _ _ hds; have := le16_lt (m.drop 32) 1; omega)
+        (smb1DialectIndex_speaks ds))⟩
   · have hp := smb1Payload_ss env (m.drop 32) h27 h1 h2
     have hlen : m.length ≥ 59 := by simp at h27; omega
     rw [smb1Message_some (by omega) hfl (by rw [at8_eq_u8, hc]; exact hp)]
